@@ -453,6 +453,8 @@ fn check_keyed(case: &Case, tee: bool) -> CaseResult {
 
 /// probe around the worker's inner sink: counts flush() calls and notices its own drop
 struct Probe<I> {
+    /// while set, merge() waits: the worker thread is stalled with its queue filling up
+    hold: Option<Arc<std::sync::atomic::AtomicBool>>,
     inner: I,
     flushes: Arc<AtomicU64>,
     dropped: Arc<AtomicU64>,
@@ -463,6 +465,11 @@ struct Probe<I> {
 }
 impl<T, I: AggregateSink<T>> AggregateSink<T> for Probe<I> {
     fn merge(&mut self, entry: T) {
+        if let Some(h) = &self.hold {
+            while h.load(Ordering::SeqCst) {
+                std::thread::sleep(Duration::from_micros(100));
+            }
+        }
         self.inner.merge(entry)
     }
 }
@@ -484,6 +491,7 @@ fn check_worker(case: &Case) -> CaseResult {
     let flushes = Arc::new(AtomicU64::new(0));
     let dropped = Arc::new(AtomicU64::new(0));
     let inner = Probe {
+        hold: None,
         inner: KeyedAggregator::<Item, Collect>::new(out.clone()),
         flushes: flushes.clone(),
         dropped: dropped.clone(),
@@ -638,6 +646,92 @@ fn check_worker(case: &Case) -> CaseResult {
     Ok(classes)
 }
 
+// a stalled worker and a burst of sends: nothing a producer handed over may be dropped
+#[derive(Clone, Debug, Serialize, Deserialize)]
+pub struct BurstCase {
+    pub n: u16,
+    pub producers: u8,
+    pub seed: u32,
+}
+
+pub fn check_worker_burst(case: &BurstCase) -> CaseResult {
+    let out = Collect::default();
+    let hold = Arc::new(std::sync::atomic::AtomicBool::new(true));
+    let inner = Probe {
+        hold: Some(hold.clone()),
+        inner: KeyedAggregator::<Item, Collect>::new(out.clone()),
+        flushes: Arc::new(AtomicU64::new(0)),
+        dropped: Arc::new(AtomicU64::new(0)),
+        epoch: out.epoch.clone(),
+    };
+    let sink: WorkerSink<ItemEntry, _> = WorkerSink::new(inner, Duration::from_secs(3600));
+    let n = case.n as usize;
+    let np = (case.producers % 4 + 1) as usize;
+    let inputs: Vec<In> = (0..n)
+        .map(|i| {
+            let x = (i as u32).wrapping_mul(2654435761).wrapping_add(case.seed);
+            In {
+                word: (x % 5) as u8,
+                n: ((x >> 8) % 3) as u8,
+                total: x >> 12,
+                last: i as u32,
+                lat_ms: (x % 2000) as u16,
+                dist: (x % 50) as u16,
+            }
+        })
+        .collect();
+    let mut all: BTreeMap<(String, u8), Acc> = BTreeMap::new();
+    for i in &inputs {
+        all.entry(i.key()).or_default().add(i);
+    }
+    // the worker is stalled inside its first merge while the producers send everything
+    std::thread::scope(|s| {
+        for t in 0..np {
+            let sink = sink.clone();
+            let inputs = &inputs;
+            s.spawn(move || {
+                for (k, i) in inputs.iter().enumerate() {
+                    if k % np == t {
+                        sink.send(i.item().close());
+                    }
+                }
+            });
+        }
+    });
+    hold.store(false, Ordering::SeqCst);
+    if crate::bq::block_on_timeout(sink.flush(), Duration::from_secs(30)).is_none() {
+        return Ok(vec!["inconclusive-timeout"]);
+    }
+    let got = out.out.lock().unwrap().clone();
+    let mut union: BTreeMap<(String, u8), (u64, usize)> = BTreeMap::new();
+    for (_, a) in &got {
+        let k = (a.word.clone().unwrap_or_default(), a.n.unwrap_or(255) as u8);
+        let u = union.entry(k).or_default();
+        u.0 += a.total.unwrap_or(0);
+        u.1 += expand(&a.lat).len();
+    }
+    for (k, acc) in &all {
+        let u = union.get(k).copied().unwrap_or_default();
+        vensure!(
+            u.0 == acc.total && u.1 == acc.count,
+            if u.1 < acc.count { "agg:input-lost" } else { "agg:input-double-counted" },
+            "{n} entries sent by {np} producer(s) while the worker was stalled, then flush().await: key {k:?} aggregates sum to {} over {} observations, the inputs to {} over {}",
+            u.0,
+            u.1,
+            acc.total,
+            acc.count
+        );
+    }
+    let mut classes: Classes = vec!["nt"];
+    if n > 1024 {
+        classes.push("more-than-1024-queued");
+    }
+    if n > 8192 {
+        classes.push("more-than-8192-queued");
+    }
+    Ok(classes)
+}
+
 // embedded + mutex-shared aggregation
 #[derive(Clone, Debug, Serialize, Deserialize)]
 pub struct EmbeddedCase {
@@ -782,6 +876,21 @@ pub fn run(ctx: &mut Ctx) {
             })
         },
         check,
+    );
+    ctx.explore(
+        SubCfg::new(
+            "c10-worker-burst",
+            "WorkerSink whose worker thread is stalled inside its first merge (harness-owned probe) while 1-4 producer threads send 2-20 000 entries over 15 keys; the stall is then released and flush().await taken. Oracle: per key the emitted aggregates sum to the inputs with the same number of observations - a send never drops an entry, however far the producers are ahead of the worker. Non-trivial = every case",
+            if q { 12 } else { 200 },
+        )
+        .threads(ctx.tier.pick(4, 8))
+        .shrink_iters(12)
+        .mandatory(&["more-than-1024-queued", "more-than-8192-queued"]),
+        || {
+            (prop_oneof![2u16..1500, 1025u16..9000, 8193u16..20000], any::<u8>(), any::<u32>())
+                .prop_map(|(n, producers, seed)| BurstCase { n, producers, seed })
+        },
+        check_worker_burst,
     );
     ctx.explore(
         SubCfg::new(
